@@ -102,6 +102,10 @@ Section Respects.
   Proof. intros d s s' H. right. cbn. auto. Qed.
   Lemma resp_ask_proj_tc : Respects ask_proj_tc ask_proj_tc.
   Proof. intros d s s' H. right. cbn. auto. Qed.
+  Lemma resp_dialect_is ids : Respects (dialect_is ids) (dialect_is ids).
+  Proof. intros d s s' H. right. cbn. auto. Qed.
+  Lemma resp_ask_flag n : Respects (ask_flag n) (ask_flag n).
+  Proof. intros d s s' H. right. cbn. auto. Qed.
   Lemma resp_expected A what t : Respects (@expected A what t) (expected what t).
   Proof. apply resp_fail. Qed.
 
@@ -361,6 +365,9 @@ Lemma frame_ask_reserved : Frame ask_reserved. Proof. intros d s _. apply frame_
 Lemma frame_lookahead A g (p q : M A) : Frame p -> Frame q -> Frame (lookahead g p q).
 Proof. intros Hp Hq d s. unfold lookahead. destruct (g _); auto. Qed.
 
+Lemma frame_dialect_is ids : Frame (dialect_is ids). Proof. intros d s _. apply frame_refl. Qed.
+Lemma frame_ask_flag n : Frame (ask_flag n). Proof. intros d s _. apply frame_refl. Qed.
+
 Lemma frame_maybe A rr (f : M A) : Frame f -> Frame (maybe_with rr f).
 Proof.
   intros Hf d s. unfold maybe_with. specialize (Hf d s). destruct (f d s) as [o t]; cbn in *.
@@ -416,7 +423,9 @@ Section Iface.
   | I_comma_sep0 A n f t : Iface A f -> okend t -> Iface _ (comma_sep0 n f t)
   | I_actions_list A n f : Iface A f -> Iface _ (actions_list n f)
   | I_skip_all_semis : Iface _ skip_all_semis
-  | I_lookahead A g p q : Iface A p -> Iface A q -> Iface A (lookahead g p q).
+  | I_lookahead A g p q : Iface A p -> Iface A q -> Iface A (lookahead g p q)
+  | I_dialect_is ids : Iface _ (dialect_is ids)
+  | I_ask_flag n : Iface _ (ask_flag n).
 
   (** Everything else of the interface is derived (it is defined from the constructors). *)
   Lemma I_if A (b : bool) p q : Iface A p -> Iface A q -> Iface A (if b then p else q).
